@@ -22,7 +22,6 @@ import (
 	"strings"
 
 	"github.com/miekg/dns"
-	"golang.org/x/net/idna"
 	"golang.org/x/text/unicode/norm"
 )
 
@@ -39,7 +38,7 @@ func FQDN(domain string) string {
 // domains are simply converted to local-case using strings.ToLower, but the
 // error is also returned.
 func ForLookup(domain string) (string, error) {
-	uDomain, err := idna.ToUnicode(domain)
+	uDomain, err := ToUnicode(domain)
 	if err != nil {
 		return strings.ToLower(domain), err
 	}
